@@ -311,5 +311,5 @@ func runC04(t *testing.T, sci interface{}) *Outcome {
 }
 
 func TestC04(t *testing.T) {
-	drive(t, &PropDef{ID: "C04", Gen: genC04, Decode: decodeInto[C04Scenario], Run: runC04, Checks: 40})
+	drive(t, &PropDef{ID: "C04", Gen: genC04, Decode: decodeInto[C04Scenario], Run: runC04, Checks: 40, CrashCapture: true})
 }
